@@ -216,6 +216,7 @@ impl<Key> CacheWeight<Key>
         #[cfg(cached_verif)] crate::cache::verif::point("K_AddKw", key_description.id as i64);
         #[cfg(cached_verif)] crate::cache::verif::lock_touch(&self.key_weights as *const _ as i64, 1);
         self.key_weights.insert(key_description.id, WeightedKey::new(key_description.clone_key(), key_description.hash, key_description.weight));
+        #[cfg(cached_verif)] crate::cache::verif::lock_touch(&self.key_weights as *const _ as i64, 1);
         #[cfg(cached_verif)] crate::cache::verif::point("K_AddUsed", key_description.id as i64);
         let mut guard = self.weight_used.write();
         *guard += key_description.weight;
@@ -248,6 +249,7 @@ impl<Key> CacheWeight<Key>
         #[cfg(cached_verif)] crate::cache::verif::point("K_DelKw", *key_id as i64);
         #[cfg(cached_verif)] crate::cache::verif::lock_touch(&self.key_weights as *const _ as i64, 1);
         if let Some(weight_by_key_hash) = self.key_weights.remove(key_id) {
+            #[cfg(cached_verif)] crate::cache::verif::lock_touch(&self.key_weights as *const _ as i64, 1);
             #[cfg(cached_verif)] crate::cache::verif::point("K_DelUsed", *key_id as i64);
             let mut guard = self.weight_used.write();
             *guard -= weight_by_key_hash.1.weight;
